@@ -15,6 +15,7 @@ CFG = dict(
         "conc": ("N * conc_case", "check_conc1"),
         "replay": ("N * replay_case", "check_replay1"),
         "merge": ("N * merge_case", "check_merge1"),
+        "dup": ("N * dup_case", "check_dup1"),
         "layout": ("layout_case", "check_layout"),
     },
     known_classes={0: "block-signatures-field", 1: "genesis-unlinked", 2: "merkle-duplicate-tail",
